@@ -337,6 +337,31 @@ func c04R3As(c *Ctx, r string) {
 				}
 			}
 			ok = root && inc
+		case *ssa.Call:
+			// the scan lives in a helper: `to := m.scanEnd(from)` — the helper returns a counter that starts
+			// at its parameter and is incremented by one, and the argument is (a load of) released
+			if h := v.Call.StaticCallee(); h != nil && h.Pkg == fn.Pkg && len(h.Blocks) > 0 {
+				argOK := -1
+				for i, a := range v.Call.Args {
+					if kit.IsFieldLoad(a, releasedF) {
+						argOK = i
+					}
+				}
+				for _, ret := range kit.Returns(h) {
+					if ph, isPhi := kit.RetVal(ret, 0).(*ssa.Phi); isPhi && argOK >= 0 && argOK < len(h.Params) {
+						root, inc := false, false
+						for _, e := range ph.Edges {
+							if e == ssa.Value(h.Params[argOK]) {
+								root = true
+							}
+							if b, isB := e.(*ssa.BinOp); isB && b.Op == token.ADD && kit.IsIntConst(b.Y, 1) && b.X == ssa.Value(ph) {
+								inc = true
+							}
+						}
+						ok = root && inc
+					}
+				}
+			}
 		}
 		c.R.Check(ok, r, "releaseLocked: released moves forward contiguously", c.Pos(s.Pos()), "released+1 or the end of the contiguous acked run", "m.released is assigned a value that is not released+1 or the end of the contiguous run scanned from released", true)
 	}
